@@ -15,7 +15,6 @@ grammar object that the first run modified.
 """
 from __future__ import annotations
 
-import importlib.util
 import json
 import os
 import re
@@ -290,13 +289,40 @@ def run_config(cfg, grammar=None):
     return out, g
 
 
+class _Timeout(BaseException):
+    pass
+
+
+def _alarm(signum, frame):
+    raise _Timeout()
+
+
+def guarded(cfg, grammar=None, limit=6.0):
+    """run_config under a per-configuration alarm (the stack mapper can loop forever for some symbol orders)."""
+    import signal
+    signal.signal(signal.SIGALRM, _alarm)
+    signal.setitimer(signal.ITIMER_REAL, limit, 0.5)
+    try:
+        return run_config(cfg, grammar)
+    except _Timeout:  # raised outside run_config's own handler
+        return {"seq": [], "best": None, "fitness": None, "error": "_Timeout", "nodes": 0, "grammar_changed": None}, grammar
+    finally:
+        signal.setitimer(signal.ITIMER_REAL, 0)
+
+
 def main():
     configs = json.load(open(sys.argv[1]))
-    res = []
-    for cfg in configs:
-        o, _ = run_config(cfg)
-        res.append(o)
-    json.dump(res, open(sys.argv[2], "w"))
+    mode = sys.argv[3] if len(sys.argv) > 3 else "single"
+    with open(sys.argv[2], "w") as fh:
+        fh.write(json.dumps({"desc": {k: v[2] for k, v in GRAMMARS.items()}}) + "\n")
+        for i, cfg in enumerate(configs):
+            a, g = guarded(cfg)
+            rec = {"i": i, "a": a}
+            if mode == "triple":  # three runs in ONE process: fresh grammar / same grammar object / fresh grammar
+                rec["b"], _ = guarded(cfg, grammar=g)
+                rec["c"], _ = guarded(cfg)
+            fh.write(json.dumps(rec) + "\n")
+            fh.flush()
 
 
 if __name__ == "__main__":
@@ -312,22 +338,29 @@ GRAMS = ["W1-arith-refined", "W2-list", "W3-union", "W4-arith-plain", "W5-mutual
 GDESC = {}
 
 
-def _observable(o):
-    return (tuple(o["seq"]), o["best"], json.dumps(o["fitness"]), o["error"])
+def _timed_out(*runs):
+    return any(r["error"] == "_Timeout" for r in runs)
 
 
-def _norm(o):
-    return (tuple(ADDR.sub("0x?", s) for s in o["seq"]), ADDR.sub("0x?", o["best"] or ""), o["error"])
+def _same(a, b, norm=False):
+    """Full observable equality; if either run hit the per-configuration alarm only the common prefix of the evaluated
+    programs is compared (a timing effect must never look like nondeterminism)."""
+    f = (lambda x: ADDR.sub("0x?", x or "")) if norm else (lambda x: x)
+    sa, sb = [f(x) for x in a["seq"]], [f(x) for x in b["seq"]]
+    if _timed_out(a, b):
+        n = min(len(sa), len(sb))
+        return sa[:n] == sb[:n]
+    return sa == sb and f(a["best"]) == f(b["best"]) and a["error"] == b["error"] and (norm or a["fitness"] == b["fitness"])
 
 
 def _first_diff(a, b):
-    """Index and the two differing programs (or the differing result) of two observables."""
+    """Index and the two differing programs (or the differing result) of two runs."""
     sa, sb = a["seq"], b["seq"]
     for i, (x, y) in enumerate(zip(sa, sb)):
         if x != y:
             return f"evaluation #{i}: {short(x, 110)} vs {short(y, 110)}"
     if len(sa) != len(sb):
-        return f"{len(sa)} vs {len(sb)} evaluations (common prefix equal)"
+        return f"{len(sa)} vs {len(sb)} evaluations (common prefix equal; outcomes {a['error'] or 'ok'} / {b['error'] or 'ok'})"
     if a["best"] != b["best"]:
         return f"best program {short(a['best'], 100)} vs {short(b['best'], 100)}"
     if a["fitness"] != b["fitness"]:
@@ -339,9 +372,28 @@ def _cfg_text(c):
     return f"{c['alg']} x {c['rep']}({c.get('decider', 'MaxDepth')}) on {c['grammar']} [{GDESC.get(c['grammar'], '')}], seed={c['seed']}, EvaluationBudget({c['budget']}), population 10"
 
 
+def _read(path):
+    """Lines a worker managed to write (it flushes after every configuration)."""
+    recs = {}
+    try:
+        with open(path) as fh:
+            for line in fh:
+                try:
+                    d = json.loads(line)
+                except ValueError:
+                    break
+                if "desc" in d:
+                    GDESC.update(d["desc"])
+                else:
+                    recs[d["i"]] = d
+    except OSError:
+        pass
+    return recs
+
+
 def run(tier: str, seed: int) -> dict:
     quick = tier != "thorough"
-    clock = Clock(30 if quick else 420)
+    clock = Clock(24 if quick else 300)
     tmp = tempfile.mkdtemp(prefix="rt_c08_")
     found = {}
     samples = []
@@ -349,6 +401,7 @@ def run(tier: str, seed: int) -> dict:
     evaluations = 0
     programs = set()
     n_sub_ok = 0
+    timeouts = 0
     try:
         worker_path = os.path.join(tmp, "c08_worker.py")
         with open(worker_path, "w") as fh:
@@ -356,64 +409,70 @@ def run(tier: str, seed: int) -> dict:
 
         # ---- configurations ------------------------------------------------------------------
         configs = []
-        seeds = [seed * 31 + 1] if quick else [seed * 31 + 1, seed * 31 + 2, seed * 31 + 3]
+        seeds = [seed * 31 + 1 + i for i in range(2 if quick else 8)]
         for sd in seeds:
             for gi, gname in enumerate(GRAMS):
                 for ai, alg in enumerate(ALGS):
                     for ri, rep in enumerate(REPS):
                         if gname == "W8-infeasible" and rep == "Stack":
                             continue  # Dependent.validate is unimplemented: the stack mapper cannot run on it at all
-                        if quick and gname in ("W3-union", "W5-mutual", "W6-base") and (ai + ri + gi) % 2:
-                            continue
-                        dec = "MaxDepth" if quick else ["MaxDepth", "Full", "PIGrow", "ProgTerminal"][(ai + ri + gi + sd) % 4]
+                        dec = ["MaxDepth", "Full", "PIGrow", "ProgTerminal"][(ai + ri + gi + sd) % 4] if sd != seeds[0] else "MaxDepth"
                         configs.append({"alg": alg, "rep": rep, "grammar": gname, "seed": sd, "budget": 40 if quick else 60, "pop": 10, "gene_length": 16, "decider": dec})
 
         def report(key, rank, what, unit):
             if key not in found or rank < found[key][0]:
                 found[key] = (rank, what, unit)
 
-        # ---- subprocesses (started first, they run while the in-process part executes) --------
-        envs = [("0", 0, 0), ("1", 1500, 0), ("4242", 7001, 1), ("random", 311, 0)]
+        # ---- processes: #0 runs every configuration three times in ONE process, the others once each -----------
+        envs = [("random", 0, 0, "triple"), ("0", 0, 0, "single"), ("1", 1500, 0, "single"), ("4242", 7001, 1, "single"), ("random", 311, 0, "single")]
         if not quick:
-            envs += [("987654", 40009, 1), ("random", 20, 0)]
+            envs += [("987654", 40009, 1, "single"), ("random", 20, 0, "single")]
         cfg_path = os.path.join(tmp, "configs.json")
         json.dump(configs, open(cfg_path, "w"))
         procs = []
-        for i, (hs, garbage, imp_first) in enumerate(envs):
+        for i, (hs, garbage, imp_first, mode) in enumerate(envs):
             env = dict(os.environ)
             env.update(PYTHONHASHSEED=hs, C08_GARBAGE=str(garbage), C08_IMPORT_FIRST=str(imp_first), PYVC_REPO=REPO)
             env.pop("PYTHONPATH", None)
-            outp = os.path.join(tmp, f"out_{i}.json")
-            p = subprocess.Popen([sys.executable, worker_path, cfg_path, outp], env=env, cwd=tmp, stdout=subprocess.DEVNULL, stderr=subprocess.PIPE)
-            procs.append((p, outp, f"process {i + 1} (PYTHONHASHSEED={hs}, {garbage} garbage blocks before the classes, library imported {'before' if imp_first else 'after'} them)"))
+            outp = os.path.join(tmp, f"out_{i}.jsonl")
+            p = subprocess.Popen([sys.executable, worker_path, cfg_path, outp, mode], env=env, cwd=tmp, stdout=subprocess.DEVNULL, stderr=subprocess.PIPE)
+            label = f"process {i} (PYTHONHASHSEED={hs}, {garbage} garbage blocks before the classes, library imported {'before' if imp_first else 'after'} them)"
+            procs.append((p, outp, label, mode))
+        outs = []
+        for p, outp, label, mode in procs:
+            try:
+                _, err = p.communicate(timeout=max(2, clock.left()))
+                if p.returncode != 0:
+                    notes.append(f"{label}: exit {p.returncode}: {short(err.decode(errors='replace')[-200:], 200)}; configurations finished before that are used")
+            except subprocess.TimeoutExpired:
+                p.kill()
+                p.communicate()
+                notes.append(f"{label}: stopped at the time limit; configurations finished before that are used")
+            recs = _read(outp)
+            if recs:
+                n_sub_ok += 1
+            outs.append((label, mode, recs))
 
-        # ---- in-process ------------------------------------------------------------------------
-        modname = "rt_c08_worker_inproc"
-        spec = importlib.util.spec_from_file_location(modname, worker_path)
-        W = importlib.util.module_from_spec(spec)
-        sys.modules[modname] = W
-        spec.loader.exec_module(W)
-        for k, v in W.GRAMMARS.items():
-            GDESC[k] = v[2]
-        inproc = []
+        # ---- in one process: A (fresh grammar) / B (same grammar object) / C (fresh grammar) -----------------
+        label0, _, triple = outs[0]
         for ci, cfg in enumerate(configs):
-            a, g = W.run_config(cfg)
-            b, _ = W.run_config(cfg, grammar=g)
-            c, _ = W.run_config(cfg)
-            inproc.append(a)
+            if ci not in triple or "c" not in triple[ci]:
+                continue
+            a, b, c = triple[ci]["a"], triple[ci]["b"], triple[ci]["c"]
             evaluations += len(a["seq"]) + len(b["seq"]) + len(c["seq"])
-            for s in a["seq"]:
-                programs.add((cfg["rep"], cfg["grammar"], s))
+            timeouts += sum(1 for r in (a, b, c) if r["error"] == "_Timeout")
+            for s_ in a["seq"]:
+                programs.add((cfg["rep"], cfg["grammar"], s_))
             text = _cfg_text(cfg)
             unit = f"{cfg['alg']}.search/{cfg['rep']}"
-            if _observable(a) != _observable(c):
-                if _norm(a) == _norm(c):
+            if not _same(a, c):
+                if _same(a, c, norm=True):
                     m = GENSTR.search(" ".join(a["seq"]))
                     cls = m.group(1) if m else "decider"
                     report(f"rt:C08:{cls}.random_str-embeds-object-address", (1, len(a["seq"]), ci), f"{text}: two runs in one process differ only in the address inside a generated str field: {_first_diff(a, c)}", unit)
                 else:
                     report(f"rt:C08:{cfg['rep']}-in-process-rerun-differs", (0, len(a["seq"]), ci), f"{text}: two identically configured runs (fresh grammar each) in ONE process differ at {_first_diff(a, c)}", unit)
-            elif _observable(a) != _observable(b):
+            elif not _same(a, b):
                 if a["grammar_changed"] or b["grammar_changed"]:
                     ch = a["grammar_changed"] or b["grammar_changed"]
                     report(
@@ -425,64 +484,60 @@ def run(tier: str, seed: int) -> dict:
                 else:
                     report(f"rt:C08:{cfg['rep']}-rerun-on-same-grammar-differs", (0, len(a["seq"]), ci), f"{text}: second run on the same Grammar object differs at {_first_diff(a, b)}", unit)
             elif len(samples) < 4 and a["error"] is None and a["nodes"] > 2 and cfg["rep"] not in {s["rep"] for s in samples}:
-                samples.append({"config": text, "rep": cfg["rep"], "evaluations": len(a["seq"]), "best": short(a["best"], 80), "verdict": "3 in-process runs identical"})
-        sys.modules.pop(modname, None)
+                samples.append({"config": text, "rep": cfg["rep"], "evaluations": len(a["seq"]), "best": short(a["best"], 80), "verdict": "3 runs in one process identical"})
 
-        # ---- collect subprocesses --------------------------------------------------------------
-        outs = []
-        for p, outp, label in procs:
-            try:
-                _, err = p.communicate(timeout=max(5, clock.left() + (8 if quick else 40)))
-            except subprocess.TimeoutExpired:
-                p.kill()
-                p.communicate()
-                notes.append(f"{label}: timed out, ignored")
-                continue
-            if p.returncode != 0 or not os.path.exists(outp):
-                notes.append(f"{label}: exit {p.returncode}: {short(err.decode(errors='replace')[-300:], 300)}")
-                continue
-            outs.append((label, json.load(open(outp))))
-            n_sub_ok += 1
+        # ---- across processes -----------------------------------------------------------------------------------
         for ci, cfg in enumerate(configs):
-            runs = [("this process", inproc[ci])] + [(label, res[ci]) for label, res in outs]
+            runs = [(label, recs[ci]["a"]) for label, mode, recs in outs if ci in recs]
+            if len(runs) < 2:
+                continue
             evaluations += sum(len(r["seq"]) for _, r in runs[1:])
+            timeouts += sum(1 for _, r in runs[1:] if r["error"] == "_Timeout")
             base_label, base = runs[0]
             text = _cfg_text(cfg)
             unit = f"{cfg['alg']}.search/{cfg['rep']}"
-            bad = [(label, r) for label, r in runs[1:] if _observable(r) != _observable(base)]
+            bad = [(label, r) for label, r in runs[1:] if not _same(base, r)]
             if not bad:
                 if len(samples) < 8 and base["error"] is None and base["nodes"] > 2 and len(runs) > 2 and (cfg["rep"], "x") not in {(s["rep"], s.get("x")) for s in samples}:
                     samples.append({"config": text, "rep": cfg["rep"], "x": "x", "evaluations": len(base["seq"]), "best": short(base["best"], 80), "verdict": f"identical in {len(runs)} processes"})
                 continue
             label, r = bad[0]
-            if _norm(r) == _norm(base):
+            both_ran = bool(base["seq"] and r["seq"] and base["error"] is None and r["error"] is None)
+            if _same(base, r, norm=True):
                 m = GENSTR.search(" ".join(base["seq"]) + " ".join(r["seq"]))
                 cls = m.group(1) if m else "decider"
                 report(
                     f"rt:C08:{cls}.random_str-embeds-object-address",
                     (0, len(base["seq"]), ci),
-                    f"{text}: the evaluated programs differ between processes only in an object address inside a generated str field: {_first_diff(base, r)} ({label})",
+                    f"{text}: the evaluated programs differ between processes only in an object address inside a generated str field: {_first_diff(base, r)} ({base_label} vs {label})",
                     unit,
                 )
             elif cfg["rep"] == "Stack" and base.get("symbol_order") != r.get("symbol_order"):
                 report(
                     "rt:C08:Stack-mapping-follows-symbol-set-order",
-                    (0, len(base["seq"]), ci),
-                    f"{text}: {len(bad)} of {len(runs) - 1} other processes evaluate different programs: {_first_diff(base, r)} ({label}); the stack mapper indexes "
-                    f"list(grammar.get_all_mentioned_symbols()), a set ordered {base.get('symbol_order')} here and {r.get('symbol_order')} there",
+                    (0 if both_ran else 1, len(base["seq"]), ci),
+                    f"{text}: {len(bad)} of {len(runs) - 1} other processes evaluate different programs than {base_label}: {_first_diff(base, r)} ({label}); the stack mapper indexes "
+                    f"list(grammar.get_all_mentioned_symbols()), a set ordered {base.get('symbol_order')} in the former and {r.get('symbol_order')} in the latter",
                     unit,
                 )
             else:
-                report(f"rt:C08:{cfg['rep']}-differs-across-processes", (0, len(base["seq"]), ci), f"{text}: {len(bad)} of {len(runs) - 1} other processes differ: {_first_diff(base, r)} ({label})", unit)
+                report(
+                    f"rt:C08:{cfg['rep']}-differs-across-processes",
+                    (0 if both_ran else 1, len(base["seq"]), ci),
+                    f"{text}: {len(bad)} of {len(runs) - 1} other processes differ from {base_label}: {_first_diff(base, r)} ({label})",
+                    unit,
+                )
     finally:
         shutil.rmtree(tmp, ignore_errors=True)
 
+    if timeouts:
+        notes.append(f"{timeouts} runs stopped by the 6 s per-configuration alarm (the stack mapper can loop without bound); for those only the common prefix of evaluated programs was compared")
     violations = [violation(k, v[1], unit=v[2]) for k, v in sorted(found.items())]
     rule = (
-        f"sampled: {len(configs)} configurations = {{GP, RandomSearch, HC, 1+1}} x {{Tree, GE, SGE, dSGE, Stack}} x up to 8 worker grammars x {len(seeds)} seed(s), "
-        f"EvaluationBudget({configs[0]['budget']}), population 10, gene length 16 (stack 64); each run 3x in-process (fresh grammar / same grammar object / fresh grammar) and once in "
-        f"each of {len(envs)} subprocesses (PYTHONHASHSEED in {{0,1,4242,random,...}}, 0..40009 garbage blocks allocated before the grammar classes are defined, library import before/after); "
-        "compared: the full sequence of programs given to the fitness function, best program, best fitness, error type"
+        f"sampled: {len(configs)} configurations = {{GP, RandomSearch, HC, 1+1}} x {{Tree, GE, SGE, dSGE, Stack}} x 8 worker grammars x {len(seeds)} seeds, "
+        f"EvaluationBudget({configs[0]['budget']}), population 10, gene length 16 (stack 64), deciders MaxDepth/Full/PIGrow/ProgressivelyTerminal; each configuration runs 3x in ONE process "
+        f"(fresh grammar / same grammar object / fresh grammar) and once in each of {len(envs) - 1} further processes (PYTHONHASHSEED in {{0,1,4242,987654,random}}, 0..40009 garbage blocks "
+        "allocated before the grammar classes are defined, library import before/after); compared: the full sequence of programs given to the fitness function, best program, best fitness, error type"
     )
     return result(
         evaluations,
@@ -492,7 +547,7 @@ def run(tier: str, seed: int) -> dict:
         violations,
         exhaustive=False,
         configurations=len(configs),
-        subprocesses_ok=n_sub_ok,
+        processes_with_results=n_sub_ok,
         notes=notes,
         seconds=round(clock.used(), 1),
     )
